@@ -179,6 +179,15 @@ func genC05(tier string, seed uint64, emit func(string)) {
 			emit(serveLine("-", [][]byte{requestBytes(t.argv(), nil)}, script, floatTable(t.argv()), "x "+t.expected))
 		}
 	}
+	// wide requests: list arguments around the sizes of internal buffers and tables
+	for _, n := range []int{255, 256, 257, 1023, 1024, 1025, 5000} {
+		for _, cmd := range []string{"DEL", "EXISTS", "RPUSH", "LPUSH", "SADD", "SREM", "HDEL", "ZREM"} {
+			forceListN = n
+			t := genRequest(r, cmd)
+			forceListN = 0
+			emit(serveLine("-", [][]byte{requestBytes(t.argv(), nil)}, genScript(r, 1, false), floatTable(t.argv()), "x "+t.expected))
+		}
+	}
 	// a connection that is already some seconds old when the command arrives: relative times are relative to the
 	// moment the command is executed, not to anything earlier
 	for _, lag := range []int{2600} {
